@@ -15,8 +15,19 @@ def _c01_nontrivial(op, impl):
         return "in=;out=" not in rest
     return len(rest) >= 22
 
+def _sh_nontrivial(op, impl):
+    # non-trivial: a preimage was produced for a transaction with >= 2 inputs, or a node vector was checked
+    k, _, rest = op.partition(" ")
+    if k == "SH.vec":
+        return True
+    return impl.startswith("ok") and rest.count(",") >= 1
+
 PROPS = {
     "C01": {
+        "manifest": {
+            "text": "Lean 4 theorems over a model of Tx.ReadFrom/toBytesHelper/Clone/Txs.ReadFrom (round trips in both formats for all well-formed transactions, canonical re-serialisation of every accepted byte string with minimal prefixes, exact consumption incl. counted lists); the model is tied to the code on every run by a differential correspondence check that also evaluates the property predicate on the implementation's own output.",
+            "note": "Trusted: Lean kernel, axioms propext/Classical.choice/Quot.sound, harness+generators+comparer, driver glue; SHA-256 executable model validated on vectors only.",
+        },
         "generators": ["C01"],
         "thorough_seeds": 3,
         "rule": "structured transactions with script lengths/counts on varint boundaries (0,1,252,253,254,65535,65536), edge field values, nil/empty scripts; byte strings = valid serialisations, every truncation, bit flips, non-minimal varints at each prefix position, spliced extended markers, concatenated streams, counted lists, random bytes. Non-trivial = structured op with >=1 input or output, or byte-string op of >=11 bytes; distinct = distinct op line.",
@@ -25,4 +36,31 @@ PROPS = {
         "assumptions": ["Go's encoding/binary, bytes.Reader and io.ReadFull behave as modelled (readN/leEnc/leDec)",
                         "field ranges: uint32/uint64 fields, lengths < 2^64 (Tx.wf)"],
     },
+    "C02": {
+        "manifest": {
+            "text": "Lean 4 theorems: the model of CalcInputPreimage equals the ten-item BSV replay-protected digest specification for every transaction, index and hash-type byte; exactly the three error cases are errors, in order; the digest is the double hash of the preimage (a FORKID preimage is never 32 bytes); ANYONECANPAY/NONE independence lemmas. The specification is validated on every run against the 500 node-generated BIP143 vectors shipped in the repository; the model is tied to the code by a differential check over all 128 FORKID hash types x generated shapes, which also compares the implementation's output with the specification directly and checks the transaction is unchanged.",
+            "note": "Trusted: Lean kernel + standard axioms, harness/generators/comparer, driver glue. SHA-256 is a parameter of the theorems and an executable model (validated on vectors) in the driver.",
+        },
+        "generators": ["C02"],
+        "thorough_seeds": 2,
+        "rule": "transaction shapes 1..6 inputs x 0..6 outputs (every fifth shape has more inputs than outputs), script lengths on varint boundaries, edge amounts, nil previous scripts, odd-length txids; all 128 hash types with bit 0x40 on the first and last index and a sample on a random index, index = len and 2^32-1; plus the 500 shipped node vectors run through the specification. Non-trivial = a preimage was produced for a transaction with >= 2 inputs, or a node vector; distinct = distinct op line.",
+        "nontrivial": _sh_nontrivial,
+        "trusted_base": COMMON_TB + ["double SHA-256 is a parameter of every theorem; the driver instantiates it with an executable Lean SHA-256 validated on vectors"],
+        "assumptions": ["the BSV digest specification is transcribed correctly in bip143Spec (validated against 500 node-generated vectors with amount 0)"],
+    },
+    "C03": {
+        "manifest": {
+            "text": "Lean 4 theorems: the model of CalcInputPreimageLegacy (clone, blank, truncate, re-serialise; built on the C01 clone theorem) equals the original Satoshi serialisation for every well-formed transaction, in-range index and hash-type byte; SINGLE without a matching output yields the constant 1 un-hashed; every other legacy preimage is longer than 32 bytes so the shortcut never fires falsely. The specification is validated against the 500 node-generated legacy vectors shipped in the repository; the model is tied to the code by a differential check over all 128 non-FORKID hash types x generated shapes, including the comparison of the implementation's output with the specification and an unchanged-transaction check.",
+            "note": "Trusted: Lean kernel + standard axioms, harness/generators/comparer, driver glue; SHA-256 executable model validated on vectors.",
+        },
+        "generators": ["C03"],
+        "thorough_seeds": 2,
+        "rule": "as C02 with the 128 hash types without bit 0x40, inputs with/without unlocking scripts, SINGLE with index >= number of outputs, ANYONECANPAY with NONE; plus the 500 shipped legacy node vectors (code separators stripped). Non-trivial = a preimage was produced for a transaction with >= 2 inputs, or a node vector.",
+        "nontrivial": _sh_nontrivial,
+        "trusted_base": COMMON_TB + ["double SHA-256 executable model validated on vectors"],
+        "assumptions": ["the original algorithm is transcribed correctly in satoshiSpec (validated against 500 node-generated vectors)", "32-byte previous txids (Tx.wf), as the property states"],
+    },
 }
+
+NOT_APPLICABLE = {}
+HOOK_COMMITS = []
